@@ -1,7 +1,7 @@
 (* Property C10 -- path editing has list semantics.  Statements only. *)
 From Coq Require Import List NArith Bool Arith.
 Import ListNotations.
-Require Import V.Regex V.Parse V.ParseProofs V.PathSpec V.Splice V.Setters V.Iter V.PathQ V.Push V.PathMut V.PathMutProofs V.C10Proofs V.PushWf V.Rfc V.NormProofs V.PopProofs V.SymProofs V.MergeProofs.
+Require Import V.Regex V.Parse V.ParseProofs V.PathSpec V.Splice V.Setters V.Iter V.PathQ V.Push V.PathMut V.PathMutProofs V.C10Proofs V.PushWf V.Rfc V.NormProofs V.PopProofs V.SymProofs V.MergeProofs V.PathBufValid.
 Local Open Scope nat_scope.
 
 (* push appends exactly the pushed segment to the segment sequence (sequences taken with "."
@@ -89,6 +89,15 @@ Theorem C10_symbolic_append_trailing_partial : forall start0 ab fa v0 (D L L0 : 
   sym_append1 start0 fa v0 L = render ab (rds_segs ab (D ++ L)).
 Proof. intros start0 ab fa v0 D L L0 R C. exact (append_trailing_empty start0 ab fa v0 D L R C L0). Qed.
 Print Assumptions C10_symbolic_append_trailing_partial.
+
+(* THE OWNED PathBuf: each of its six mutators takes a fresh handle on the whole buffer (start = 0, follows_authority).
+   On every path free of '?' and '#', with segment arguments free of '/', '?' and '#', the index-level model returns -- no
+   panic -- exactly the text-level function: push true true / pop_text / clear1 / normalize1 / sym_push1 / sym_append1 *)
+Theorem C10_pathbuf_ops_exact : forall p o, none_of [QM; HASH] p ->
+  match o with BPush s | BSymPush s => noqh s /\ noslash s | BSymAppend l => Forall (fun s => noqh s /\ noslash s) l | _ => True end ->
+  bstep p o = Some (btext p o).
+Proof. exact bstep_text. Qed.
+Print Assumptions C10_pathbuf_ops_exact.
 
 (* ANY sequence of push / pop / clear through ONE handle: whenever the list-level edits of the view are defined
    (pop's scan cannot panic on a non-empty view), the index-level handle performs them without panic, its
